@@ -1,5 +1,6 @@
 //! `vh` - verification harness: runs the real iggy code (built from /repo's working tree) on
 //! traces given as JSON lines on stdin and prints one JSON observation line per trace.
+mod client;
 mod common;
 mod journal;
 mod perm;
